@@ -8,6 +8,7 @@ package c18
 import (
 	"encoding/json"
 	"fmt"
+	"sort"
 	"strings"
 
 	"github.com/openconfig/goyang/pkg/yang"
@@ -174,6 +175,10 @@ func runHistory(h []int) (f *fail, procs int, steps int) {
 					return
 				}
 				processedOnce = true
+				if p := queries(ms); p != "" {
+					res = &fail{"query-answers-with-a-module-that-is-not-loaded", "the registered module", p + fmt.Sprintf("\n(after step %d)", step)}
+					return
+				}
 			case opGet:
 				procs++
 				e, errs := ms.GetModule("g")
@@ -206,6 +211,10 @@ func runHistory(h []int) (f *fail, procs int, steps int) {
 					e.GetErrors()
 				}
 				ms.FindModuleByNamespace("urn:g")
+				if p := queries(ms); p != "" {
+					res = &fail{"query-answers-with-a-module-that-is-not-loaded", "the registered module", p + fmt.Sprintf("\n(after step %d)", step)}
+					return
+				}
 				// (Find creates the input/output of an rpc on demand; the statement only speaks
 				// of what later processing runs report, so the dump is not compared here)
 				_ = dump.Modules(ms, dump.Options{Positions: true})
@@ -232,6 +241,41 @@ func runHistory(h []int) (f *fail, procs int, steps int) {
 		return &fail{"panic@" + core.LastPanicSite, "no panic", pt}, procs, steps
 	}
 	return res, procs, steps
+}
+
+// queries: the lookups by namespace and by import answer with the very module objects the set has
+// registered - never with one a rejected load left behind.
+func queries(ms *yang.Modules) string {
+	var names []string
+	for n := range ms.Modules {
+		names = append(names, n)
+	}
+	sort.Strings(names)
+	for _, n := range names {
+		m := ms.Modules[n]
+		if strings.Contains(n, "@") || m.Namespace == nil {
+			continue
+		}
+		got, err := ms.FindModuleByNamespace(m.Namespace.Name)
+		if err != nil || got != m {
+			return fmt.Sprintf("FindModuleByNamespace(%s) = %s (%v), registered: %s", m.Namespace.Name, src(got), err, src(m))
+		}
+		for _, im := range m.Import {
+			if im.Module != nil {
+				if reg := ms.Modules[im.Module.Name]; reg != nil && im.Module.Name == im.Name && ms.FindModule(im) != nil && ms.FindModule(im).Name != im.Name {
+					return fmt.Sprintf("FindModule(import %s in %s) = %s", im.Name, n, src(ms.FindModule(im)))
+				}
+			}
+		}
+	}
+	return ""
+}
+
+func src(m *yang.Module) string {
+	if m == nil {
+		return "nil"
+	}
+	return m.Name + " from " + yang.Source(m)
 }
 
 func depth(tier string) int {
